@@ -1,5 +1,6 @@
 """C18 -- Statement.get_type() names the leading DML/DDL keyword (thin)."""
 import ast
+from .. import rx
 
 from .. import kinds as KD
 from .. import miniev as ME
@@ -270,7 +271,7 @@ def check_shadowing(ctx, V):
         for rp in sorted({b[1] for b in bad}, key=str):
             sub = [b for b in bad if b[1] == rp]
             line = next((x.line for x in T.lex if x.pattern == rp), 0)
-            ctx.ob('R18.3', f'context:{cname}:rule={rp}', f'{T.kwmod.relpath}:{line}',
+            ctx.ob('R18.3', f'context:{cname}:rule={rx.canon_pattern(rp)}', f'{T.kwmod.relpath}:{line}',
                    f'no rule re-types a DML/DDL/CTE keyword followed by {cname}', False,
                    f'rule {rp!r} re-types {len(sub)} spellings, e.g. {[(b[0], repr(b[2])) for b in sub[:3]]}: get_type() returns UNKNOWN for '
                    f'e.g. `{sub[0][0]}{cx}...`')
